@@ -15,6 +15,7 @@ import (
 	"path/filepath"
 	"regexp"
 	"strings"
+	"sync"
 	"time"
 
 	"github.com/magisterquis/curlrevshell/verifx/ev"
@@ -260,4 +261,153 @@ func c06RealBinary(r *ev.Result, base string) {
 	r.AddDistinct(n)
 	r.Traces += n
 	r.Set("real_binary_io_pairs", n)
+}
+
+// startTwoListen starts the real binary with two -listen-address flags and
+// returns the addresses that accept connections (one, on the pinned tree:
+// the last flag wins; both, if the program has learnt to listen on several).
+func startTwoListen(base string) (p *ptyrun.Proc, accepting []string, dir string, err error) {
+	free := func() string {
+		l, lerr := net.Listen("tcp", "127.0.0.1:0")
+		if nil != lerr {
+			ev.Broken("%s", lerr)
+		}
+		defer l.Close()
+		return l.Addr().String()
+	}
+	dir, _ = os.MkdirTemp(base, "twolisten-")
+	var a1, a2 string
+	for try := 0; try < 5; try++ {
+		a1, a2 = free(), free()
+		if p, _, err = startReal(dir, "-tls-certificate-cache", filepath.Join(dir, "c.txtar"), "-listen-address", a1, "-listen-address", a2); nil == err {
+			break
+		}
+	}
+	if nil != err {
+		return nil, nil, dir, err
+	}
+	for _, a := range []string{a1, a2} {
+		if c, derr := net.DialTimeout("tcp", a, 5*time.Second); nil == derr {
+			c.Close()
+			accepting = append(accepting, a)
+		}
+	}
+	return p, accepting, dir, nil
+}
+
+// c01RealTwoListen: however many addresses the program listens on, it has
+// one terminal: a shell attached through one address, an attempt with another
+// ID through the other is refused, gets no input and shows no output.
+func c01RealTwoListen(r *ev.Result, base string) {
+	p, addrs, dir, err := startTwoListen(base)
+	defer os.RemoveAll(dir)
+	if nil != err {
+		r.Inc("two_listen_runs_not_started", 1)
+		return
+	}
+	defer p.Close()
+	r.Set("addresses_accepting_with_two_listen_flags", len(addrs))
+	first := addrs[len(addrs)-1]
+	ci, co, err := realShell(p, first, "aaa", 0)
+	if nil != err {
+		ev.Broken("c01 two-listen session: %s", err)
+	}
+	defer ci.Close()
+	defer co.Close()
+	for _, a := range addrs {
+		from := len(p.Output())
+		bi, err := hworld.DialAddr(a, "")
+		if nil != err {
+			continue
+		}
+		bi.Send(hworld.Get("/i/bbb", a))
+		bo, err := hworld.DialAddr(a, "")
+		if nil != err {
+			bi.Close()
+			continue
+		}
+		bo.Send("POST /o/bbb HTTP/1.1\r\nHost: x\r\nTransfer-Encoding: chunked\r\n\r\n" + chunk("OUTPUT-OF-BBB\n"))
+		/* Two refusals are due. */
+		deadline := time.Now().Add(30 * time.Second)
+		for strings.Count(p.Output()[from:], "Rejected") < 2 && time.Now().Before(deadline) && !strings.Contains(p.Output()[from:], "OUTPUT-OF-BBB") {
+			time.Sleep(20 * time.Millisecond)
+		}
+		out := p.Output()[from:]
+		bi.Close()
+		bo.Close()
+		r.Add(1)
+		if strings.Contains(out, "OUTPUT-OF-BBB") || strings.Contains(out, "Shell is ready") || strings.Count(out, "Rejected") < 2 {
+			r.Violate(ev.Violation{Signature: "binary/second-shell-through-another-address", Kind: "c01real", Replay: map[string]string{"scenario": "two -listen-address flags"},
+				What: fmt.Sprintf("real binary with two -listen-address flags (%d of them accept connections); shell \"aaa\" is attached through %s; streams with ID \"bbb\" through %s: %d refusal notices, its output displayed: %v, another shell announced ready: %v", len(addrs), first, a, strings.Count(out, "Rejected"), strings.Contains(out, "OUTPUT-OF-BBB"), strings.Contains(out, "Shell is ready"))})
+			return
+		}
+	}
+	stopReal(p)
+}
+
+// c02RealTwoListen: with input streams attached through every address the
+// program accepts on, the lines the operator types reach one of them, all of
+// them, in order.
+func c02RealTwoListen(r *ev.Result, base string) {
+	p, addrs, dir, err := startTwoListen(base)
+	defer os.RemoveAll(dir)
+	if nil != err {
+		r.Inc("two_listen_runs_not_started", 1)
+		return
+	}
+	defer p.Close()
+	var ins []*hworld.Conn
+	for k, a := range addrs {
+		c, err := hworld.DialAddr(a, "")
+		if nil != err {
+			continue
+		}
+		defer c.Close()
+		c.Send(hworld.Get(fmt.Sprintf("/i/in%d", k), a))
+		ins = append(ins, c)
+	}
+	p.WaitFor(regexp.MustCompile(`Input connected`), 0, 30*time.Second)
+	time.Sleep(300 * time.Millisecond) /* A second one, if any, has attached or been refused by now (it is judged either way). */
+	const nLines = 40
+	for i := 0; i < nLines; i++ {
+		p.Send(fmt.Sprintf("line-%02d\r", i))
+	}
+	got := make([]string, len(ins))
+	var wg sync.WaitGroup
+	for k, c := range ins {
+		wg.Add(1)
+		go func(k int, c *hworld.Conn) {
+			defer wg.Done()
+			c.C.SetReadDeadline(time.Now().Add(10 * time.Second))
+			buf := make([]byte, 4096)
+			for {
+				n, err := c.R.Read(buf)
+				got[k] += string(buf[:n])
+				if nil != err || strings.Contains(got[k], fmt.Sprintf("line-%02d", nLines-1)) {
+					return
+				}
+			}
+		}(k, c)
+	}
+	wg.Wait()
+	r.Add(1)
+	lineRE := regexp.MustCompile(`line-\d\d`)
+	best := 0
+	var counts []int
+	for k := range ins {
+		ls := lineRE.FindAllString(got[k], -1)
+		counts = append(counts, len(ls))
+		if len(ls) > len(lineRE.FindAllString(got[best], -1)) {
+			best = k
+		}
+	}
+	want := ""
+	for i := 0; i < nLines; i++ {
+		want += fmt.Sprintf("line-%02d", i)
+	}
+	if strings.Join(lineRE.FindAllString(got[best], -1), "") != want {
+		r.Violate(ev.Violation{Signature: "binary/lines-split-between-addresses", Kind: "c02real", Replay: map[string]string{"scenario": "two -listen-address flags"},
+			What: fmt.Sprintf("real binary with two -listen-address flags (%d accept connections), an input stream through each; %d lines typed: the streams received %v of them (no stream got the whole run in order)", len(addrs), nLines, counts)})
+	}
+	stopReal(p)
 }
